@@ -212,7 +212,7 @@ fn host_step(set: u32) -> Option<(u32, u32, u32)> {
         (false, c)
     });
     if cancel {
-        ev(|| json!({"ev": "event", "kind": "cancel", "h": 0, "status": 0}));
+        ev(|| json!({"ev": "event", "kind": "cancel", "h": 0, "status": 0, "checked": false, "errors": 0}));
         return Some((EVENT_CANCEL, 0, 0));
     }
     let Some(hd) = cand else {
@@ -271,8 +271,29 @@ pub fn sync_export_done() {
 /// `callback` is its `[callback]` export
 pub fn run_export(name: &str, start: impl FnOnce(&[u64]) -> u32, callback: impl Fn(u32, u32, u32) -> u32) {
     let args = export_args(name);
-    let mut code = start(&args);
+    let code = start(&args);
     host(|| drop(args));
+    drive(code, callback);
+}
+
+/// the handles the host lends to the task for the duration of the call (`borrow<r>` parameters)
+pub fn lend(hs: &[u32]) {
+    ev(|| json!({"ev": "borrow.lend", "hs": hs}));
+}
+
+/// the guest dropped a handle it had borrowed (`[resource-drop]` of the test program's import handler)
+pub fn borrow_dropped(h: u32) {
+    ev(|| json!({"ev": "borrow.drop", "h": h}));
+}
+
+/// `task.return` judged by the test program itself (fixed worlds without a vector)
+pub fn note_task_return(errors: usize) {
+    ah(|h| h.returned += 1);
+    ev(|| json!({"ev": "task.return", "errors": errors}));
+}
+
+/// the callback loop of a task whose export has answered `code`
+pub fn drive(mut code: u32, callback: impl Fn(u32, u32, u32) -> u32) {
     let mut steps = 0;
     loop {
         steps += 1;
@@ -282,12 +303,27 @@ pub fn run_export(name: &str, start: impl FnOnce(&[u64]) -> u32, callback: impl 
         }
         match code & 0xf {
             0 => {
-                ev(|| json!({"ev": "answer", "code": "exit"}));
+                ev(|| json!({"ev": "answer", "code": "exit", "set": 0}));
                 break;
             }
             1 => {
-                ev(|| json!({"ev": "answer", "code": "yield"}));
-                code = callback(EVENT_NONE, 0, 0);
+                ev(|| json!({"ev": "answer", "code": "yield", "set": 0}));
+                let cancel = ah(|h| {
+                    h.waits += 1;
+                    if h.cancel_at != 0 && h.waits == h.cancel_at && !h.cancel_sent {
+                        h.cancel_sent = true;
+                        true
+                    } else {
+                        false
+                    }
+                });
+                if cancel {
+                    ev(|| json!({"ev": "event", "kind": "cancel", "h": 0, "status": 0, "checked": false, "errors": 0}));
+                    code = callback(EVENT_CANCEL, 0, 0);
+                } else {
+                    ev(|| json!({"ev": "event", "kind": "none", "h": 0, "status": 0, "checked": false, "errors": 0}));
+                    code = callback(EVENT_NONE, 0, 0);
+                }
             }
             2 => {
                 let set = code >> 4;
